@@ -322,18 +322,34 @@ def _shareholders_check(modes, helds, happy, N):
     if enc.got is None:
         return "encoder was not given its shareholders"
     (landlords, servermap) = enc.got
+    # the writers that will really be written: one per share number
     medges = set()
     for shnum, w in landlords.items():
         sid = w.get_peerid()
         if shnum not in bysid[sid].open:
             return "encoder writer for share %d points at a server without an open bucket" % shnum
         medges.add((sid, shnum))
+    # every allocated bucket must be one of them: a second open writer for the same share number would never be
+    # written, closed or aborted, yet its server is counted as a holder
+    for srv in servers:
+        for shnum in srv.open:
+            if (srv.sid, shnum) not in medges:
+                return ("the uploader accepted a selection in which share %d has open bucket writers on two servers; the one on %d is "
+                        "never written or aborted but is counted towards happiness (layout %r)" % (shnum, srv.sid, sorted(edges)))
     for shnum, sids in servermap.items():
         for sid in sids:
-            if shnum not in bysid[sid].held and shnum not in bysid[sid].open:
-                return "encoder servermap claims share %d on %d, which neither holds nor is receiving it" % (shnum, sid)
+            if shnum not in bysid[sid].held and (sid, shnum) not in medges:
+                return "encoder servermap claims share %d on %d, which neither holds it nor will receive it" % (shnum, sid)
     if not medges <= set((sid, sh) for sh, sids in servermap.items() for sid in sids):
         return "a bucket writer's server is missing from the encoder servermap (its removal would not be accounted)"
+    real = set(medges)
+    for shnum, sids in already.items():
+        for sid in sids:
+            real.add((sid, shnum))
+    got_real = M.max_matching_z3(real)
+    if got_real < happy:
+        return ("upload goes ahead although the shares that will really be written plus the pre-existing ones have happiness %d < threshold %d "
+                "(layout %r)" % (got_real, happy, sorted(real)))
     if M.max_matching_z3(set((sid, sh) for sh, sids in servermap.items() for sid in sids)) < happy:
         return "encoder starts with a servermap below the happiness threshold"
     return True
